@@ -166,12 +166,13 @@ def build_pvmodel(name="main", force=False):
     h.update(open(os.path.join(OCAML, "driver.ml"), "rb").read())
     h.update(open(os.path.join(OCAML, "build.sh"), "rb").read())
     binary = PVMODEL if name == "main" else os.path.join(OCAML, "pv_" + name)
+    os.makedirs(os.path.join(OCAML, "_build"), exist_ok=True)
     stamp = os.path.join(OCAML, "_build", name + ".stamp")
     digest = h.hexdigest()
     if not force and os.path.exists(binary) and os.path.exists(stamp) and open(stamp).read() == digest:
         _pv_built.add(name)
         return True, ""
-    rc, out = sh("timeout 900 ./build.sh %s" % name, cwd=OCAML, timeout=1000)
+    rc, out = sh("flock %s/_build/%s.lock timeout 900 ./build.sh %s" % (OCAML, name, name), cwd=OCAML, timeout=2000)
     if rc == 0:
         open(stamp, "w").write(digest)
         _pv_built.add(name)
